@@ -75,8 +75,9 @@ type env struct {
 	// and whether that URI was validated by an *earlier* request (callback flows).
 	redirect          string
 	validatedEarlier  bool
-	redirectForbidden bool   // the URI is not registered: no redirect to it is ever acceptable
-	subjectToken      string // revocation flows: the token the request under test is about
+	redirectForbidden bool        // the URI is not registered: no redirect to it is ever acceptable
+	subjectToken      string      // revocation flows: the token the request under test is about
+	probes            *probeState // readiness flows with an application-defined provider
 	lit               literal
 }
 
@@ -92,13 +93,14 @@ const (
 // returns the request under test; OK recognises the fault-free success answer (what the fault must prevent).
 type flowDef struct {
 	Name     string
-	Class    string      // authorize, callback, token, device_authorization, device_poll, userinfo, introspection, revocation, end_session, keys
-	Need     vstore.Caps // capabilities without which the fault-free answer is an error
-	ForceJWT bool        // the flow is about JWT access tokens whatever the variant says
-	TwinOf   string      // a ForceJWT flow that is identical to flow TwinOf in a JWT variant (skipped there as a duplicate)
-	TypeName bool        // the flow consumes an access token: it is reported as <Name>_jwt when the tokens of its world are JWTs
-	ErrBase  bool        // the fault-free answer is itself an error (pending, denied, unregistered URI ...)
-	Optional bool        // the fault-free run may be blocked by a defect that is not C10's (recorded, not mandatory)
+	Class    string       // authorize, callback, token, device_authorization, device_poll, userinfo, introspection, revocation, end_session, keys, ready
+	Need     vstore.Caps  // capabilities without which the fault-free answer is an error
+	ForceJWT bool         // the flow is about JWT access tokens whatever the variant says
+	TwinOf   string       // a ForceJWT flow that is identical to flow TwinOf in a JWT variant (skipped there as a duplicate)
+	TypeName bool         // the flow consumes an access token: it is reported as <Name>_jwt when the tokens of its world are JWTs
+	ErrBase  bool         // the fault-free answer is itself an error (pending, denied, unregistered URI ...)
+	Optional bool         // the fault-free run may be blocked by a defect that is not C10's (recorded, not mandatory)
+	Probes   *probeLayout // readiness flows: the application-defined provider's Probes() (ready.go); nil = the plain *op.Provider
 	Prep     func(e *env) (*reqSpec, error)
 	OK       func(e *env, r *opdrv.Resp) bool
 }
@@ -130,11 +132,16 @@ func newEnv(v variant, f *flowDef, router int, user, state, nonce string) (*env,
 			op.WithIDTokenHintVerifierOpts(op.WithSupportedIDTokenHintSigningAlgorithms(string(v.Alg))),
 		},
 	}
+	var ps *probeState
+	if f.Probes != nil {
+		ps = newProbeState(f.Probes)
+		opt.WrapProvider = ps.wrap
+	}
 	w, err := opdrv.NewWorld(opt)
 	if err != nil {
 		return nil, err
 	}
-	e := &env{w: w, router: router, v: v, jwt: v.JWT || f.ForceJWT, user: user, state: state, nonce: nonce}
+	e := &env{w: w, router: router, v: v, jwt: v.JWT || f.ForceJWT, user: user, state: state, nonce: nonce, probes: ps}
 	e.cl = opdrv.StdClients(w.Store)
 	if e.jwt {
 		for _, c := range e.cl {
@@ -708,5 +715,16 @@ func catalogue() []*flowDef {
 	}, Prep: func(e *env) (*reqSpec, error) {
 		return &reqSpec{Method: "GET", Path: "/keys", Auth: opdrv.NoAuth()}, nil
 	}})
+
+	// --- readiness: Storage.Health is a storage call made during GET /ready. The plain provider has the storage probe
+	// only; the other flows run behind an application-defined provider with several probes (ready.go).
+	okReady := func(_ *env, r *opdrv.Resp) bool { return r.Status == 200 && r.Str("status") == "ok" }
+	readySpec := func(e *env) (*reqSpec, error) {
+		return &reqSpec{Method: "GET", Path: "/ready", Auth: opdrv.NoAuth()}, nil
+	}
+	add(&flowDef{Name: "ready", Class: "ready", OK: okReady, Prep: readySpec})
+	for _, l := range probeLayouts() {
+		add(&flowDef{Name: "ready_probes_" + l.Name, Class: "ready", OK: okReady, Prep: readySpec, Probes: l})
+	}
 	return fl
 }
